@@ -51,6 +51,7 @@ ELEMENT_METHODS = {"copy", "__copy__", "items", "values", "get", "keys"}
 IMM_ANN = {"int", "str", "bytes", "bool", "float", "tuple", "Tuple", "None", "complex", "frozenset", "Literal", "type", "Type", "Callable", "date", "time", "datetime"}
 MUT_ANN = {"bitarray", "bytearray", "list", "List", "dict", "Dict", "set", "Set", "deque", "Deque", "MutableSequence", "MutableMapping", "Any", "object"}
 NP_ANN = {"ndarray", "array", "NDArray"}
+FLAT_ANN = {"bitarray", "bytearray", "frozenbitarray"}   # mutable buffers whose ELEMENTS are immutable scalars (kind "flat")
 CLOCK = {
     "time.time", "time.time_ns", "time.monotonic", "time.monotonic_ns", "time.perf_counter", "time.localtime", "time.gmtime", "time.strftime", "time.ctime",
     "datetime.datetime.now", "datetime.datetime.utcnow", "datetime.datetime.today", "datetime.date.today", "datetime.now", "datetime.utcnow", "datetime.today",
@@ -114,6 +115,8 @@ def _kjoin(a, b):
         return "mut"
     if "np" in (a, b):
         return "np"
+    if "flat" in (a, b):
+        return "mut" if "mut" in (a, b) else "?"
     if "mut" in (a, b):
         return "mut"
     return "?"
@@ -352,6 +355,8 @@ class FuncWalk:
         if names:
             if names & NP_ANN:
                 kind = "np"
+            elif names & FLAT_ANN and names <= FLAT_ANN | IMM_ANN | {"Optional", "Union"}:
+                kind = "flat"
             elif names & MUT_ANN:
                 kind = "mut"
             elif names <= IMM_ANN:
@@ -502,6 +507,10 @@ class FuncWalk:
     def s_For(self, s, env):
         it = self.ev(s.iter, env)
         elem = Val(it.reach, it.reach, "imm" if it.kind == "imm" and not it.reach else "?")
+        if it.kind == "flat":
+            elem = FRESH_IMM
+        elif it.kind == "np":
+            elem = Val(it.own, it.reach, "np")                # iterating a 2-D array yields row views
         if isinstance(s.iter, ast.Call) and ast.unparse(s.iter.func) in ("range", "enumerate") and ast.unparse(s.iter.func) == "range":
             elem = FRESH_IMM
         for _ in range(2):
@@ -726,6 +735,8 @@ class FuncWalk:
     def e_BinOp(self, n, env):
         l, r = self.ev(n.left, env), self.ev(n.right, env)
         k = "imm" if l.kind == r.kind == "imm" else ("np" if "np" in (l.kind, r.kind) else ("mut" if "mut" in (l.kind, r.kind) else "?"))
+        if "flat" in (l.kind, r.kind) and {l.kind, r.kind} <= {"flat", "imm"}:
+            return Val(E, E, "flat")                          # bits + bits, bits * 3, bits ^ bits: a new flat buffer
         return Val(E, (l.reach | r.reach) if k != "imm" else E, k)
 
     def e_IfExp(self, n, env):
@@ -802,12 +813,18 @@ class FuncWalk:
         self.ev(n.slice, env)
         if base.kind == "imm":
             return FRESH_IMM
-        if isinstance(n.slice, ast.Slice) or (isinstance(n.slice, ast.Tuple) and any(isinstance(e, ast.Slice) for e in n.slice.elts)):
-            if base.kind in ("np", "?") and base.kind == "np":
+        is_slice = isinstance(n.slice, ast.Slice) or (isinstance(n.slice, ast.Tuple) and any(isinstance(e, ast.Slice) for e in n.slice.elts))
+        if base.kind == "flat":
+            # bitarray / bytearray: a slice is a private copy, an item is an int
+            return Val(E, E, "flat") if is_slice else FRESH_IMM
+        if is_slice:
+            if base.kind == "np":
                 return Val(base.own, base.reach, "np")       # numpy slices are views
-            return Val(E, base.reach, base.kind)              # list / bitarray / bytes slices are copies
+            return Val(E, base.reach, base.kind)              # list / bytes slices are copies
         if base.kind == "np":
-            return Val(base.own if isinstance(n.slice, ast.Tuple) is False and False else E, base.reach, "?")
+            if isinstance(n.slice, ast.Tuple):
+                return Val(E, base.reach, "?")                # a[i, j]: a scalar
+            return Val(base.own, base.reach, "np")            # a[i]: a row VIEW of a 2-D array (a scalar of a 1-D one: cannot be mutated anyway)
         return Val(base.reach, base.reach, "?")
 
     def e_Slice(self, n, env):
@@ -997,6 +1014,8 @@ class FuncWalk:
         if name in FLAT_METHODS or recv.kind == "imm":
             self.eff.resolved_calls += 1
             if name in ELEMENT_METHODS:
+                if recv.kind == "flat":
+                    return Val(E, E, "flat" if name in ("copy", "__copy__") else "imm")
                 return Val(E, recv.reach, "mut" if name in ("copy", "__copy__") else "?")
             return Val(E, E, "imm" if name in ("tobytes", "hex", "to01", "count", "index", "find", "decode", "encode", "bit_length", "to_bytes", "join", "strftime") else "?")
         if cands:
@@ -1036,7 +1055,7 @@ class FuncWalk:
         if base in SHALLOW_COPIES or short in ("list", "dict", "set", "sorted", "reversed", "tuple", "enumerate", "zip"):
             return Val(E, allreach, "cont")
         if base in FLAT_COPIES or base.startswith(("numpy.", "math.", "struct.", "bitarray.util.", "binascii.", "hashlib.", "re.")):
-            k = "np" if base.startswith("numpy.") else ("mut" if short in ("bitarray", "bytearray", "int2ba", "hex2ba", "zeros", "array") else "imm")
+            k = "np" if base.startswith("numpy.") else ("flat" if short in ("bitarray", "bytearray", "int2ba", "hex2ba", "zeros", "frozenbitarray") else "mut" if short == "array" else "imm")
             return Val(E, E, k)
         if base in ("getattr",) and args:
             return Val(args[0].reach, args[0].reach, "?")
